@@ -287,6 +287,7 @@ def run(ctx):
     ctx.guarded("R-C03-pause", pause, ctx, prog, cg)
     ctx.guarded("R-C03-cache", cache, ctx, prog)
     ctx.guarded("R-C03-exits", exits, ctx, prog)
+    ctx.guarded("R-C03-config", config_args, ctx, prog)
 
 
 # ------------------------------------------------------------------------------------------
@@ -560,3 +561,40 @@ def exits(ctx, prog):
             ctx.violation(rule, b.id, "returns Result", "Router::events now returns a Result: a client-triggered error could end the router loop", site=b.fn_loc())
         else:
             ctx.ok(rule, b.id, "returns %s (cannot propagate an error into the loop)" % b.local_ty(0))
+
+
+# parameter of CommitLog::new -> config field names it may be read from (RouterConfig and SegmentConfig)
+COMMITLOG_ARGS = {1: ("max_segment_size", {"max_segment_size"}), 2: ("max_mem_segments", {"max_segment_count", "max_mem_segments"})}
+
+
+def config_args(ctx, prog):
+    """Premise of the audit entry for CommitLog::new's two configuration panics ("depend only on the
+    configuration, a valid configuration never trips them"): each size argument is read from the config
+    field that means that size.  A swapped field (segment count used as segment size) turns a valid
+    configuration into a router-thread panic on an ordinary SUBSCRIBE."""
+    rule = "R-C03-config"
+    n = 0
+    for body, bb, t in call_sites(prog, r"segments::CommitLog::<T>::new$"):
+        if body.is_cleanup(bb) or body.id.startswith("segments::"):
+            continue
+        n += 1
+        for argi, (pname, allowed) in COMMITLOG_ARGS.items():
+            src = flatten_src(provenance(body, t["args"][argi - 1]))
+            names = set()
+            unknown = False
+            for s_ in src:
+                f = getattr(s_, "fields", None)
+                if f:
+                    names.add(f[-1].split(".")[-1])
+                elif s_.kind == "const":
+                    names.add("<const %s>" % s_.v)
+                else:
+                    unknown = True
+            bad = sorted(x for x in names if x not in allowed and not x.startswith("<const"))
+            if bad or unknown or not names:
+                ctx.violation(rule, body.id, "CommitLog::new(%s) source" % pname,
+                              "argument `%s` of CommitLog::new is read from %s (expected only config fields %s): a valid configuration can now trip the explicit size panics of CommitLog::new on the router thread"
+                              % (pname, bad or sorted(names) or "an untracked value", sorted(allowed)), site=body.loc(t.get("sp")))
+            else:
+                ctx.ok(rule, body.id, "CommitLog::new(%s) is read from config field(s) %s" % (pname, sorted(names)), site=body.loc(t.get("sp")))
+    ctx.floor(rule, "CommitLog::new call sites outside segments::", n, 1)
